@@ -15,6 +15,7 @@ type genCfg struct {
 	maxNP, maxWl   int
 	conflictChance int
 	icName         bool // workloads named ingress-controller / names that are suffixes of other names
+	twinPct        int  // probability (pct) that a selector rule gets a re-spelled twin with other ports
 	icNs           bool // the namespace ingress-controller-ns may hold objects
 	sameName       bool // several workloads (of different kinds) may share one name in a namespace
 }
@@ -94,9 +95,47 @@ func selFor(r *Rng, l []KV, vals []string) Sel {
 	return s
 }
 
+// selectors already generated for the current world (pod / namespace selectors): some later selectors are re-spellings
+// of an earlier one (requirements and values permuted) - equal selectors that are not equal texts
+var selPoolPod, selPoolNs []Sel
+
+func respell(r *Rng, s Sel) Sel {
+	var t Sel
+	t.ML = append([]KV{}, s.ML...)
+	for _, q := range s.ME {
+		q2 := Req{Key: q.Key, Op: q.Op, Vals: append([]string{}, q.Vals...)}
+		if r.P(60) {
+			Shuffle(r, q2.Vals)
+		}
+		t.ME = append(t.ME, q2)
+	}
+	if r.P(60) {
+		Shuffle(r, t.ME)
+	}
+	if r.P(30) {
+		Shuffle(r, t.ML)
+	}
+	return t
+}
+
 func genSel(r *Rng, keys, vals []string) Sel {
-	var s Sel
 	isNs := len(keys) > 0 && (keys[0] == nsLblKeys[0] || keys[0] == "kubernetes.io/metadata.name")
+	pool := &selPoolPod
+	if isNs {
+		pool = &selPoolNs
+	}
+	if len(*pool) > 0 && r.P(15) {
+		return respell(r, Pick(r, *pool))
+	}
+	s := genSel0(r, keys, vals, isNs)
+	if len(s.ME) > 0 {
+		*pool = append(*pool, s)
+	}
+	return s
+}
+
+func genSel0(r *Rng, keys, vals []string, isNs bool) Sel {
+	var s Sel
 	if isNs && len(candNs) > 0 && r.P(60) {
 		return selFor(r, Pick(r, candNs), vals)
 	}
@@ -114,6 +153,9 @@ func genSel(r *Rng, keys, vals []string) Sel {
 		n := r.Range(1, 2)
 		for i := 0; i < n; i++ {
 			q := Req{Key: Pick(r, keys), Op: Pick(r, []string{"In", "In", "NotIn", "Exists", "DoesNotExist"})}
+			if i > 0 && r.P(35) {
+				q.Key = s.ME[0].Key // two requirements on one key
+			}
 			if q.Op == "In" || q.Op == "NotIn" {
 				nv := r.Range(1, 2)
 				vs := append([]string{}, vals...)
@@ -229,6 +271,32 @@ func genNPRules(r *Rng, cfg *genCfg, egress bool) []NPRule {
 		allowNamed := !(egress && hasIP) || r.P(cfg.namedOnIPPct)
 		rule.Ports = genNPPorts(r, allowNamed)
 		rs = append(rs, rule)
+		// a twin: the same selector peers re-spelled (requirements / values permuted), other ports - two rules whose
+		// peers are equal selectors with different texts (representative peers, exposure lines with equal names)
+		if cfg.twinPct > 0 && r.P(cfg.twinPct) && !hasIP && len(rule.Peers) > 0 {
+			var twin NPRule
+			for _, p := range rule.Peers {
+				q := NPPeer{}
+				if p.PodSel != nil {
+					if len(p.PodSel.ME) == 1 && r.P(60) {
+						// a second requirement on the same key (the original rule shares the pointer and gets it too)
+						p.PodSel.ME = append(p.PodSel.ME, Req{Key: p.PodSel.ME[0].Key, Op: "NotIn", Vals: []string{"zz"}})
+					}
+					t := respell(r, *p.PodSel)
+					if len(t.ME) == 2 && t.ME[0].Key == t.ME[1].Key && r.P(70) {
+						t.ME[0], t.ME[1] = p.PodSel.ME[1], p.PodSel.ME[0] // the other order for sure
+					}
+					q.PodSel = &t
+				}
+				if p.NsSel != nil {
+					t := respell(r, *p.NsSel)
+					q.NsSel = &t
+				}
+				twin.Peers = append(twin.Peers, q)
+			}
+			twin.Ports = genNPPorts(r, allowNamed)
+			rs = append(rs, twin)
+		}
 	}
 	return rs
 }
@@ -303,6 +371,7 @@ func genARules(r *Rng, banp bool, pfx string) []ARule {
 func genWorld(r *Rng, cfg *genCfg) *World {
 	w := &World{}
 	candPod, candNs = nil, nil
+	selPoolPod, selPoolNs = nil, nil
 	nNs := r.Range(1, 3)
 	nss := append([]string{}, nsPool...)
 	Shuffle(r, nss)
